@@ -104,6 +104,12 @@ FragsCyc == << [name |-> "G", on |-> "O"], [name |-> "H", on |-> "O"] >>
 Cyc_Leafs(t) == IF t = "O" THEN { Sel("", "x") } ELSE {}
 Cyc_Comps(t) == CASE t = "Q" -> { Sel("", "o") } [] t = "O" -> { Sel("", "z") } [] OTHER -> {}
 
+\* FX: the union of the families, for random walks beyond the exhaustive bounds (tlc -simulate)
+FX_Leafs(t) == F1_Leafs(t) \cup F2_Leafs(t) \cup F4_Leafs(t) \cup
+               (IF t = "Q" THEN { SelA("", "f", <<[n |-> "x", v |-> VarRef("i1")]>>), Sel("", "__typename"), Sel("", "nn") } ELSE {})
+FX_Comps(t) == F2_Comps(t) \cup F4_Comps(t) \cup (IF t = "Q" THEN { Sel("", "n"), Sel("", "ln"), Sel("m", "o") } ELSE {})
+FX_Inlines(t) == F3_Inlines(t) \cup F4_Inlines(t) \cup (IF t = "O" THEN { "", "O" } ELSE {})
+
 \* F5: arguments (literal / variable / defaults), see also C05
 F5_Leafs(t) ==
   IF t # "Q" THEN {} ELSE
